@@ -440,3 +440,20 @@ def param_roots(body_hir, ld, e, depth=0, pidx=None):
             else:
                 out |= param_roots(body_hir, ld, init, depth + 1, pidx)
     return out
+
+
+def walk_expanded(ld, e, depth=0, seen=None):
+    """Nodes of `e` plus, for every let-bound local it mentions, the nodes of that local's initialiser (transitively): what the
+    expression is made of regardless of how many intermediate `let`s were introduced."""
+    seen = seen if seen is not None else set()
+    for n in walk(e):
+        yield n
+        if n.get("k") == "path" and res_local(n) is not None and depth < 5 and ld is not None:
+            l = res_local(n)
+            if l in seen:
+                continue
+            seen.add(l)
+            d = ld.get(l)
+            if d and d[1] is not None and not (d[2] and d[2][0] == "arm"):
+                for m in walk_expanded(ld, d[1], depth + 1, seen):
+                    yield m
